@@ -35,6 +35,13 @@ func genC10(r *rand.Rand, _ int, _ string) *Scenario {
 
 	years := 365 * 24 * 3600 * sec
 	cfgTTLs := []int64{0, -1, 1, 7, 999, ms, sec, 17 * sec, 3600 * sec, 24 * 3600 * sec, years, 10 * years, -2, -999, -ms, -sec, -24 * 3600 * sec, -years}
+	// "keep it forever" spelled as a very long TTL: the expiry instant lies beyond what a unix-nanosecond
+	// timestamp can hold
+	forever := []int64{250 * years, 280 * years, math.MaxInt64, math.MaxInt64 - 1, math.MaxInt64 / 2}
+
+	if chance(r, 0.08) {
+		cfgTTLs = forever
+	}
 	be.Cfg = BEConfig{TTLNs: pick(r, cfgTTLs...), Jitter: pick(r, -1.0, 0, 0, 0.01, 0.3, 0.5, 1, 1.5, 2, r.Float64()), Strategy: r.IntN(3)}
 
 	if be.Cfg.Jitter == 0 && chance(r, 0.5) {
@@ -57,6 +64,10 @@ func genC10(r *rand.Rand, _ int, _ string) *Scenario {
 		if chance(r, 0.6) {
 			op.HasTTL = true
 			op.TTLNs = pick(r, 0, 1, 2, 3, 10, 1001, ms, 3*ms+1, sec, 59*sec, 3600*sec, 30*24*3600*sec, years, 10*years)
+
+			if chance(r, 0.08) {
+				op.TTLNs = pick(r, forever...)
+			}
 
 			if chance(r, 0.3) {
 				op.TTLNs = -op.TTLNs
@@ -130,7 +141,9 @@ func (r *beRun) modeTTL() {
 				continue
 			}
 
-			r.rootSleep(20 * 365 * 24 * time.Hour)
+			if r.clockRoom(20 * 365 * 24 * time.Hour) {
+				r.rootSleep(20 * 365 * 24 * time.Hour)
+			}
 
 			if v, err := r.bk.read(ctx, []byte(rec.key)); err != nil || v != interface{}(rec.tok) {
 				bad("R2", class, "never-expiring entry %q read 20 years later gives (%v, %v)", rec.key, v, err)
@@ -153,6 +166,43 @@ func (r *beRun) modeTTL() {
 			out.probe("jittered_write")
 		}
 
+		if maxTS := float64(math.MaxInt64); float64(t)+hi >= maxTS {
+			// (Part of) the documented window lies beyond the last instant a timestamp can hold, so the exact
+			// instant cannot be demanded. What a user of such a TTL relies on still can: the reported expiry is
+			// not earlier than the window allows (or than the last representable year, when the whole window is
+			// out of reach), and the entry is served now and decades later.
+			out.probe("expiry_beyond_representable_time")
+
+			lower := lo
+			whole := float64(t)+lo >= maxTS
+
+			if whole {
+				lower = maxTS - float64(t) - float64(years1)
+			}
+
+			// (exp-t wraps around in int64 when exp did)
+			if !(whole && exp == 0) && float64(exp)-float64(t) < lower {
+				bad("R1", class+" beyond-representable", "entry written at t with effective TTL %v (jitter %v) expires at t%+v (%v), long before the documented window starts",
+					ttl, j, time.Duration(exp-t), time.Unix(0, exp).UTC())
+
+				continue
+			}
+
+			for _, wait := range []time.Duration{0, 20 * 365 * 24 * time.Hour} {
+				if float64(time.Now().UnixNano())+float64(wait) >= float64(t)+lower || !r.clockRoom(wait) {
+					break
+				}
+
+				r.rootSleep(wait)
+
+				if v, err := r.bk.read(ctx, []byte(rec.key)); err != nil || v != interface{}(rec.tok) {
+					bad("R3", class+" beyond-representable", "entry with effective TTL %v read %v after the write gives (%v, %v), expected the value", ttl, wait, v, err)
+				}
+			}
+
+			continue
+		}
+
 		if off < lo || off > hi || (j == 0 && exp-t != int64(ttl)) {
 			bad("R1", class, "entry written at t with effective TTL %v (jitter %v) expires at t%+v, outside the documented bounds [t%+v, t%+v]",
 				ttl, j, time.Duration(exp-t), time.Duration(lo), time.Duration(hi))
@@ -161,6 +211,18 @@ func (r *beRun) modeTTL() {
 		}
 
 		now := time.Now().UnixNano()
+
+		if exp > now && !r.clockRoom(time.Duration(exp-now)) {
+			// the simulated clock itself cannot go there (and later operations still need room): the entry is
+			// served now, the flip is not probed
+			out.probe("expiry_near_end_of_time")
+
+			if v, err := r.bk.read(ctx, []byte(rec.key)); err != nil || v != interface{}(rec.tok) {
+				bad("R3", class, "read before the reported expiry instant (%v earlier) gives (%v, %v), expected the value", time.Duration(exp-now), v, err)
+			}
+
+			continue
+		}
 
 		if exp > now {
 			// R3: reads strictly before the instant are fresh ...
@@ -201,6 +263,8 @@ func (r *beRun) modeTTL() {
 	out.NonTrivial = len(r.recs) > 0
 	out.Outcome = fmt.Sprintf("%d writes", len(r.recs))
 }
+
+const years1 = 365 * 24 * 3600 * sec
 
 func durClass(ns int64) string {
 	switch {
@@ -1020,6 +1084,12 @@ func (r *beRun) oracleC11Conc() {
 // rootSleep advances the bubble clock from the root and waits until every task that a timer woke
 // at the new instant has re-parked, so that what the root reads next (task counters, library
 // state) does not depend on how fast those goroutines got there.
+// clockRoom: may the simulated clock advance by d and still leave decades before the last unix-nanosecond
+// instant (the fake clock of the bubble cannot go beyond it)?
+func (r *beRun) clockRoom(d time.Duration) bool {
+	return float64(time.Now().UnixNano())+float64(d) < float64(math.MaxInt64)-float64(60*years1)
+}
+
 func (r *beRun) rootSleep(d time.Duration) {
 	time.Sleep(d)
 	r.e.s.SettleRoot()
